@@ -1,11 +1,13 @@
 import CpProofs.C20Monitor
+import CpProofs.C20Block
+import CpProofs.C20Threads
 /-!
   C20 — background workers obey stop/graceful under every thread interleaving.
   Part M (this file): `BackgroundTask` / `Monitor`.  Parts B (`Bus.block/wait`) and T
   (`ThreadManager`) are in `C20Block.lean` / `C20Threads.lean`.
 -/
 namespace CpProofs.C20
-open CpModel.Monitor
+open CpModel CpModel.Monitor
 
 /-! ### statements, at full strength (every schedule, every call sequence, any number of workers) -/
 
@@ -160,5 +162,53 @@ example : Reach asIsP [.start, .stop] (run asIsP (init [.start, .stop]) []) := .
 example : ∃ c, Reach { mode := .fixed } [.start, .stop, .start] c ∧ (c.ws 0).stopRet = true ∧
     (c.ws 1).running = true :=
   ⟨_, reachAll_fixed rfl (reachAll_run _ _ (ctlN 32)), by decide, by decide⟩
+
+/-! ### parts B and T restated under the property's namespace -/
+section B
+open CpModel.BlockWait
+
+/-- EXITING is stable once `exit()` has written it (every schedule). -/
+theorem C20_exiting_stable (s0 : St) (calls : List BCall) (c : BlockWait.Cfg) (hs : s0 ≠ .exiting)
+    (hl : ExitLast calls = true) (h : C20B.Reach s0 calls c) (he : c.exited = true)
+    (sched : List BlockWait.Tid) : (BlockWait.run c sched).state = .exiting :=
+  C20B.C20_exiting_stable s0 calls c hs hl h he sched
+
+/-- `block()` returns once the bus is EXITING, under any schedule that gives main 5 turns. -/
+theorem C20_block_returns (s0 : St) (calls : List BCall) (c : BlockWait.Cfg) (hs : s0 ≠ .exiting)
+    (hl : ExitLast calls = true) (h : C20B.Reach s0 calls c) (he : c.exited = true)
+    (sched : List BlockWait.Tid) (hf : 5 ≤ sched.count .main) : (BlockWait.run c sched).mpc = .done :=
+  C20B.C20_block_returns s0 calls c hs hl h he sched hf
+
+/-- ... and never earlier. -/
+theorem C20_block_only_after_exiting (s0 : St) (calls : List BCall) (c : BlockWait.Cfg)
+    (hs : s0 ≠ .exiting) (hl : ExitLast calls = true) (h : C20B.Reach s0 calls c)
+    (hm : c.mpc = .tail ∨ c.mpc = .done) : c.exited = true ∧ c.state = .exiting :=
+  C20B.C20_block_only_after_exiting s0 calls c hs hl h hm
+
+theorem C20_execv_iff_restart (s0 : St) (calls : List BCall) (c : BlockWait.Cfg) (hs : s0 ≠ .exiting)
+    (hl : ExitLast calls = true) (h : C20B.Reach s0 calls c) (hm : c.mpc = .done) :
+    c.execvDone = true ↔ BCall.restart ∈ calls :=
+  C20B.C20_execv_iff_restart s0 calls c hs hl h hm
+end B
+
+section T
+open CpModel.ThreadMgr
+
+theorem C20_thread_notifications : C20T.C20_thread_notifications_full .fixed :=
+  C20T.C20_thread_notifications
+
+theorem C20_thread_notifications_quiescent (scripts : List (List ROp)) (nstops : Nat)
+    (c : ThreadMgr.Cfg) (h : C20T.Reach .fixed scripts nstops c) (hs : c.spc = .done) (t : Nat)
+    (ht : (c.rs t).pc = .done) :
+    (c.rs t).nstart = (c.rs t).nstop + C20T.b2n (c.d t).isSome :=
+  C20T.C20_thread_notifications_quiescent scripts nstops c h hs t ht
+
+theorem C20_thread_notifications_partial (scripts : List (List ROp)) (c : ThreadMgr.Cfg)
+    (h : C20T.Reach .asIs scripts 0 c) : (∀ t, C20T.Bal c t) ∧ c.spc ≠ .rterr :=
+  C20T.C20_thread_notifications_partial scripts c h
+
+theorem C20_thread_notifications_asIs_false : ¬ C20T.C20_thread_notifications_full .asIs :=
+  C20T.C20_thread_notifications_asIs_false
+end T
 
 end CpProofs.C20
